@@ -27,7 +27,7 @@ var c03Faults = []string{
 	"none",
 	"version-wrong", "version-absent", "destination-wrong",
 	"resp-issuer-missing", "resp-issuer-wrong",
-	"status-missing", "statuscode-missing", "status-nonsuccess", "zero-assertions",
+	"status-missing", "statuscode-missing", "status-nonsuccess", "status-nested-success-under-failure", "zero-assertions",
 	"a-issuer-missing", "a-issuer-wrong", "a-subject-missing", "a-subjconf-missing", "a-method-wrong",
 	"a-scd-missing", "a-recipient-missing", "a-recipient-wrong", "a-nooa-missing", "a-nooa-malformed", "a-nooa-expired",
 	"misroute-other-sp", "delay-past-expiry",
@@ -47,7 +47,7 @@ func c03Expect(f string) []errSpec {
 		return []errSpec{{"missing", []string{"status"}}}
 	case "statuscode-missing":
 		return []errSpec{{"missing", []string{"statuscode"}}}
-	case "status-nonsuccess":
+	case "status-nonsuccess", "status-nested-success-under-failure":
 		return []errSpec{{"invalid", []string{"statuscode", "status"}}}
 	case "zero-assertions":
 		return []errSpec{{"missing", []string{"assertion"}}}
@@ -202,6 +202,9 @@ func c03Run(r *core.Run) {
 		m.HasStatusCode = false
 	case "status-nonsuccess":
 		m.StatusCode = []string{"urn:oasis:names:tc:SAML:2.0:status:Requester", "urn:oasis:names:tc:SAML:2.0:status:Responder", "", "urn:oasis:names:tc:SAML:2.0:status:success"}[t.Int(4, "c03.status")]
+	case "status-nested-success-under-failure":
+		m.StatusCode = "urn:oasis:names:tc:SAML:2.0:status:Responder"
+		m.SubStatusCode = strp(world.StatusOK)
 	case "zero-assertions":
 		m.Assertions = nil
 	case "a-issuer-missing":
